@@ -20,8 +20,9 @@ import numpy as np
 
 from harness import coqterm as ct
 from harness.acc_common import cell_from_json  # noqa: E402,F401
+from harness.acc_common import mend  # noqa: E402
 from harness.acc_common import (ACC_LAYOUTS, AccGen, CellPrinter, cbool, clist, copt, cres, cz, czlist,
-                                mid, month_aligned, parse_nat_list, tri_from_json, tri_to_json)
+                                mid, month_aligned, parse_nat_list, same_meta, tri_from_json, tri_to_json)
 from harness.common import COQ, REPO, parse_coq_eval
 
 D = datetime.date
@@ -131,10 +132,13 @@ def retime(parent, d):
         mk = lambda x, h, m: MyDateTime(x.year, x.month, x.day, h, m)  # noqa: E731
     else:
         mk = lambda x, h, m: datetime.datetime(x.year, x.month, x.day, h, m)  # noqa: E731
-    metas = list(parent.metadata)
+    metas = []
+    for c in parent.cells:
+        if not any(same_meta(c.metadata, m) for m in metas):
+            metas.append(c.metadata)
     cells = []
     for c in parent.cells:
-        i = next(k for k, m in enumerate(metas) if m == c.metadata)
+        i = next(k for k, m in enumerate(metas) if same_meta(m, c.metadata))
         h, mi = d["times"][i % len(d["times"])]
         kw = {}
         if type(c).__name__ == "IncrementalCell":  # F28: prev_evaluation_date is normalised like the others
@@ -536,17 +540,17 @@ def oracles(o):
     metas = val("metadata") or []
     seen = []
     for c in cells:
-        if not any(c.metadata == m for m in seen):
+        if not any(same_meta(c.metadata, m) for m in seen):
             seen.append(c.metadata)
-    chk("metadata", len(metas) == len(seen) and all(any(m == s for s in seen) for m in metas)
-        and all(any(m == s for m in metas) for s in seen), "not the distinct metadata of the cells")
+    chk("metadata", len(metas) == len(seen) and all(any(same_meta(m, s) for s in seen) for m in metas)
+        and all(any(same_meta(m, s) for m in metas) for s in seen), "not the distinct metadata of the cells")
     chk("metadata", all(a < b and not (b < a) for a, b in zip(metas[:-1], metas[1:])), "not strictly sorted by <")
     # counts
     v = val("field_cell_counts")
     want = {f: sum(1 for c in cells if f in c.values) for f in names}
     chk("field_cell_counts", v == want and list(v or {}) == names, f"got {v} want {want}")
     v = val("field_slice_counts")
-    want = {f: sum(1 for m in seen if any(f in c.values for c in cells if c.metadata == m)) for f in names}
+    want = {f: sum(1 for m in seen if any(f in c.values for c in cells if same_meta(c.metadata, m))) for f in names}
     chk("field_slice_counts", v == want and list(v or {}) == names, f"got {v} want {want}")
     # num_samples
     sizes = {x.size for c in cells for x in c.values.values() if isinstance(x, np.ndarray) and x.size > 1}
@@ -604,14 +608,14 @@ def oracles(o):
                 for a in ["details", "loss_details"]:
                     chk("metadata_differences", not (set(getattr(common, a)) & set(getattr(dm, a))), f"{a} key in both")
                     kw[a] = {**getattr(common, a), **getattr(dm, a)}
-                chk("metadata_differences", Metadata(**kw) == m, f"recombination {kw} != {m}")
+                chk("metadata_differences", same_meta(Metadata(**kw), m), f"recombination {kw} != {m}")
     # taxonomy
     dj = val("is_disjoint")
     chk("is_disjoint", dj == disjoint_true, f"got {dj}, all-pairs overlap test says {disjoint_true}; periods {per}")
     swd = val("is_slicewise_disjoint")
     want = True
     for m in seen:
-        pp = list({(c.period_start, c.period_end) for c in cells if c.metadata == m})
+        pp = list({(c.period_start, c.period_end) for c in cells if same_meta(c.metadata, m)})
         if any(overlap(p, q) for i, p in enumerate(pp) for q in pp[i + 1:]):
             want = False
     chk("is_slicewise_disjoint", swd == want, f"got {swd} want {want}")
@@ -779,6 +783,24 @@ def hardening():
     out.append(("G:numpy-corners", Triangle([mk(*Q[0], E3[0], dict(g)), mk(*Q[0], E3[1], {"a_f32": np.array([5, 6], dtype=np.float32)})])))
     out.append(("G:size1-vs-scalar", Triangle([mk(*Q[0], E3[0], {"a": np.array([7])}), mk(*Q[0], E3[1], {"a": 7}),
                                                mk(*Q[1], E3[1], {"a": np.array(7)})])))
+    # M: sibling slices differing ONLY by a value whose CPython hash collides (hash(-1) == hash(-2), ...)
+    for nm, ms in [
+        ("M:detail--1/-2", [Metadata(details={"layer": -1}), Metadata(details={"layer": -2})]),
+        ("M:loss_detail--2.0/-1.0", [Metadata(country="US", loss_details={"layer": -2.0}), Metadata(country="US", loss_details={"layer": -1.0})]),
+        ("M:limit-0/2**61-1", [Metadata(per_occurrence_limit=0), Metadata(per_occurrence_limit=2**61 - 1)]),
+        ("M:limit--1/-2", [Metadata(per_occurrence_limit=-2), Metadata(per_occurrence_limit=-1), Metadata(per_occurrence_limit=0)]),
+        ("M:detail-0/2**61-1+shared", [Metadata(details={"lob": "a", "layer": 0}), Metadata(details={"layer": 2**61 - 1, "lob": "a"})]),
+    ]:
+        out.append((nm, tri(ms, vals={"paid_loss": 1})))
+        out.append((nm + "-uneven-fields", Triangle([mk(a, b, e, {"paid_loss": 1} if i else {"reported_loss": 2}, m)
+                                                     for i, m in enumerate(ms) for a, b in Q[:2] for e in E3[: 1 + i]])))
+    # P: whole periods missing; evaluation steps whose gcd is smaller than the smallest step
+    out.append(("P:annual-2018-2020-no-2019", Triangle([mk(D(y, 1, 1), D(y, 12, 31), D(y + k, 12, 31)) for y in (2018, 2020) for k in (0, 1)])))
+    out.append(("P:H1-only-half-years", Triangle([mk(D(y, 1, 1), D(y, 6, 30), e) for y in (2019, 2020, 2021)
+                                                  for e in (D(y, 6, 30), D(y + 1, 6, 30))])))
+    out.append(("P:eval-steps-0-6-15", Triangle([mk(D(2020, 1, 1), D(2020, 3, 31), mend(602 + k)) for k in (0, 6, 15)])))
+    out.append(("P:eval-steps-0-10-25+periods-4-6", Triangle([mk(D(2020, 1, 1), D(2020, 4, 30), mend(603 + k)) for k in (0, 10, 25)]
+                                                             + [mk(D(2020, 5, 1), D(2020, 10, 31), mend(609 + 25))])))
     # I: restated cells (same coordinates twice, different values)
     out.append(("I:restated", Triangle([mk(*Q[0], E3[0], {"paid_loss": 1}), mk(*Q[0], E3[0], {"paid_loss": 2, "x": 1}),
                                         mk(*Q[1], E3[1], {"paid_loss": 3})])))
